@@ -65,6 +65,7 @@ type Import struct {
 }
 
 type File struct {
+	TopNames []string `json:"top_names"`
 	Header  string   `json:"header"`
 	Package string   `json:"package"`
 	Imports []Import `json:"imports"`
@@ -457,6 +458,28 @@ func main() {
 				n = im.Name.Name
 			}
 			res.Imports = append(res.Imports, Import{Name: n, Path: p})
+		}
+		for _, d := range file.Decls {
+			switch d := d.(type) {
+			case *ast.FuncDecl:
+				if d.Recv == nil {
+					res.TopNames = append(res.TopNames, d.Name.Name)
+				}
+			case *ast.GenDecl:
+				for _, sp := range d.Specs {
+					switch sp := sp.(type) {
+					case *ast.TypeSpec:
+						res.TopNames = append(res.TopNames, sp.Name.Name)
+					case *ast.ValueSpec:
+						for _, n := range sp.Names {
+							res.TopNames = append(res.TopNames, n.Name)
+						}
+					}
+				}
+			}
+		}
+		if !strings.HasSuffix(path, "_band.go") {
+			continue
 		}
 		for _, d := range file.Decls {
 			fd, ok := d.(*ast.FuncDecl)
